@@ -182,7 +182,13 @@ Definition mj_init (n dim : Z) (h u : S) : buf :=
         (map (fun k => sneg (smul (sofZ (n - k)) h)) (zseq n))
         (map (fun _ => map (fun _ => s0) (zseq dim)) (zseq n)).
 
-(* what mjw.make_data creates: wp.zeros *)
+(* what mjw.make_data creates and mjw.reset_data restores (io.py: Data.history := tile(mujoco.MjData(mjm).history),
+   reset_nworld: history_out[worldid, i] = history0[i]): MuJoCo's initial buffer.  Compared with the real
+   make_data / reset_data output for every buffer of the oracle models on each run. *)
+Definition make_data_buf (n dim : Z) (h u : S) : buf := mj_init n dim h u.
+
+(* the explicit all-zero buffer value (cursor 0, times 0, values 0): a legal sorted buffer, but NOT the
+   initial buffer -- this is what make_data created before the repair (finding F5, fixed) *)
 Definition zero_buf (n dim : Z) : buf :=
   mkBuf s0 0 (map (fun _ => s0) (zseq n)) (map (fun _ => map (fun _ => s0) (zseq dim)) (zseq n)).
 
